@@ -9,6 +9,8 @@ exit 2, never with a verdict.
 """
 from __future__ import annotations
 
+import ast
+
 from .core import AnalysisError
 from .absint import Interp, Native, AbsRaise, Unsupported, Closure, Unknown, TypeTok
 from . import fst
@@ -33,6 +35,39 @@ class ChainInterp(Interp):
         if isinstance(v, SymText):
             raise Unsupported("truth value of the symbolic text")
         return super().truth(v)
+
+    def exec_stmt(self, st, env):
+        """`if NEEDLE in text: text = text.replace(..)…` skips rewriting steps that cannot match:
+        when every replaced string of the guarded steps contains NEEDLE, the steps are the
+        identity on a text without NEEDLE, so the guarded form equals the unguarded chain."""
+        if isinstance(st, ast.If) and not st.orelse and isinstance(st.test, ast.Compare) \
+                and len(st.test.ops) == 1 and isinstance(st.test.ops[0], ast.In) \
+                and isinstance(st.test.comparators[0], ast.Name):
+            try:
+                cur = env.lookup(st.test.comparators[0].id)
+            except Exception:
+                cur = None
+            if isinstance(cur, SymText):
+                needle = self.eval(st.test.left, env)
+                want = str if cur.kind == "str" else bytes
+                if not isinstance(needle, want) or not needle:
+                    raise Unsupported("membership test of a non-constant in the symbolic text")
+                nd = needle if cur.kind == "str" else needle.decode("latin-1")
+                if not all(isinstance(b, ast.Assign) and len(b.targets) == 1
+                           and isinstance(b.targets[0], ast.Name)
+                           and b.targets[0].id == st.test.comparators[0].id for b in st.body):
+                    raise Unsupported("a guarded block on the symbolic text that is not a re-assignment")
+                for b in st.body:
+                    super().exec_stmt(b, env)
+                new = env.lookup(st.test.comparators[0].id)
+                if not (isinstance(new, SymText) and new.kind == cur.kind
+                        and new.stages[:len(cur.stages)] == cur.stages):
+                    raise Unsupported("a guarded block does not extend the rewriting of the text")
+                for stage in new.stages[len(cur.stages):]:
+                    if not (isinstance(stage, fst.Replace) and nd in stage.p):
+                        raise Unsupported(f"a step guarded by `{needle!r} in text` can match without it")
+                return None
+        return super().exec_stmt(st, env)
 
     def getattr(self, o, name):
         if isinstance(o, SymText):
